@@ -596,6 +596,98 @@ fn boundary_values(t: &Type, rng: &mut Rng, iters: &BTreeMap<String, Variable>) 
     })
 }
 
+/// What docs/stdlib.md states for the pure helpers, for the argument shapes where the statement is
+/// unambiguous (None = no prediction). A sample oracle: the documented values of pure functions
+/// are functions of their inputs; this table only makes the seeded boundary sample meaningful.
+fn reference(name: &str, args: &[Variable]) -> Option<Variable> {
+    let int = |i: usize| match args.get(i) {
+        Some(Variable::Int(x)) => Some(*x),
+        _ => None,
+    };
+    let flt = |i: usize| match args.get(i) {
+        Some(Variable::Float(x)) => Some(*x),
+        _ => None,
+    };
+    let st = |i: usize| match args.get(i) {
+        Some(Variable::String(x)) => Some(x.to_string()),
+        _ => None,
+    };
+    let strs = |v: Vec<String>| Variable::from(v.into_iter().map(Variable::from).collect::<Vec<Variable>>());
+    let opt_u32 = |o: Option<u32>| o.map(|x| Variable::Int(x as i64)).unwrap_or(Variable::Void);
+    Some(match name {
+        "len" => match args.first()? {
+            Variable::String(s) => Variable::Int(s.chars().count() as i64),
+            Variable::Array(a) => Variable::Int(a.len() as i64),
+            _ => return None,
+        },
+        "math.count_ones" => Variable::Int(int(0)?.count_ones() as i64),
+        "math.count_zeros" => Variable::Int(int(0)?.count_zeros() as i64),
+        "math.leading_zeros" | "math.leading_zeroes" => Variable::Int(int(0)?.leading_zeros() as i64),
+        "math.trailing_zeros" | "math.trailing_zeroes" => Variable::Int(int(0)?.trailing_zeros() as i64),
+        "math.leading_ones" => Variable::Int(int(0)?.leading_ones() as i64),
+        "math.trailing_ones" => Variable::Int(int(0)?.trailing_ones() as i64),
+        "math.swap_bytes" => Variable::Int(int(0)?.swap_bytes()),
+        "math.reverse_bits" => Variable::Int(int(0)?.reverse_bits()),
+        "math.ilog2" => opt_u32(int(0)?.checked_ilog2()),
+        "math.ilog10" => opt_u32(int(0)?.checked_ilog10()),
+        "math.ilog" => opt_u32(int(0)?.checked_ilog(int(1)?)),
+        "math.floor" => Variable::Float(flt(0)?.floor()),
+        "math.ceil" => Variable::Float(flt(0)?.ceil()),
+        "math.round" => Variable::Float(flt(0)?.round()),
+        "math.round_ties_even" => Variable::Float(flt(0)?.round_ties_even()),
+        "math.trunc" => Variable::Float(flt(0)?.trunc()),
+        "string.split" => strs(st(0)?.split(st(1)?.as_str()).map(|x| x.to_string()).collect()),
+        "string.replace" => Variable::from(st(0)?.replace(st(1)?.as_str(), st(2)?.as_str())),
+        "string.contains" => Variable::Bool(st(0)?.contains(st(1)?.as_str())),
+        "string.starts_with" => Variable::Bool(st(0)?.starts_with(st(1)?.as_str())),
+        "string.ends_with" => Variable::Bool(st(0)?.ends_with(st(1)?.as_str())),
+        "string.chars" => strs(st(0)?.chars().map(|c| c.to_string()).collect()),
+        "string.bytes" => Variable::from(st(0)?.bytes().map(|b| Variable::Int(b as i64)).collect::<Vec<Variable>>()),
+        "string.to_lowercase" => Variable::from(st(0)?.to_lowercase()),
+        "string.to_uppercase" => Variable::from(st(0)?.to_uppercase()),
+        "string.trim" => Variable::from(st(0)?.trim().to_string()),
+        "string.trim_start" => Variable::from(st(0)?.trim_start().to_string()),
+        "string.trim_end" => Variable::from(st(0)?.trim_end().to_string()),
+        "string.str_from_utf8" | "string.str_from_utf8_lossy" => {
+            let Variable::Array(a) = args.first()? else { return None };
+            let mut bytes = Vec::new();
+            for e in a.iter() {
+                match e {
+                    Variable::Int(x) if (0..=255).contains(x) => bytes.push(*x as u8),
+                    _ => return None, // elements that are not bytes: the documentation is silent
+                }
+            }
+            if name.ends_with("lossy") {
+                Variable::from(String::from_utf8_lossy(&bytes).into_owned())
+            } else {
+                match String::from_utf8(bytes) {
+                    Ok(s) => Variable::from(s),
+                    Err(_) => Variable::Void,
+                }
+            }
+        }
+        "convert.parse_int" => st(0)?.parse::<i64>().map(Variable::Int).unwrap_or(Variable::Void),
+        "convert.parse_float" => st(0)?.parse::<f64>().map(Variable::Float).unwrap_or(Variable::Void),
+        "convert.to_float" => match args.first()? {
+            Variable::Int(x) => Variable::Float(*x as f64),
+            Variable::Float(x) => Variable::Float(*x),
+            _ => return None,
+        },
+        "convert.to_int" => match args.first()? {
+            Variable::Int(x) => Variable::Int(*x),
+            Variable::Float(x) if x.is_finite() && x.abs() < 9.0e18 => Variable::Int(x.trunc() as i64),
+            _ => return None,
+        },
+        "convert.to_string" => match args.first()? {
+            Variable::Int(x) => Variable::from(x.to_string()),
+            Variable::String(x) => Variable::from(x.to_string()),
+            Variable::Bool(x) => Variable::from(x.to_string()),
+            _ => return None,
+        },
+        _ => return None,
+    })
+}
+
 fn walk_exports(prefix: &str, v: &Variable, out: &mut Vec<(String, Variable)>) {
     if let Variable::Struct(m) = v {
         let mut keys: Vec<_> = m.keys().cloned().collect();
@@ -660,6 +752,16 @@ pub fn run_table(key_seed: u64, arg_seed: u64) -> RunReport {
                         }
                         Ok(Ok(Ok(val))) => {
                             rep.triples.push(format!("{name}|table|none"));
+                            if let Some(want) = reference(&name, &args) {
+                                if cvar(&want) != cvar(&val) {
+                                    rep.violation = Some((
+                                        "documented-value".into(),
+                                        format!("std.{name}({}) returned {} but docs/stdlib.md describes {}", shown.join(", "), cvar(&val), cvar(&want)),
+                                    ));
+                                    return rep;
+                                }
+                                rep.triples.push(format!("{name}|reference|none"));
+                            }
                             if !inhabits(&val, &ft.return_type) || !val.as_type().matches(&ft.return_type) {
                                 rep.violation = Some((
                                     "result-type".into(),
